@@ -56,7 +56,7 @@ PROPS = {
         "level": "model_checking",
         "technique": "exhaustive enumeration of all request histories up to a depth on one connection through the real read/handle/send code under a controlled executor; differential oracle against fresh connections; the session-loop model is bound to the real Session::manage by replaying histories over loopback TCP in lock-step",
         "engine": "vmc",
-        "level_text": "History-space exploration: all sequences of length <=4 (quick) / <=5 (thorough) over 20 requests (hit, 404, two params, bodies of 3 bytes / NUL-leading / NUL in the middle / ending exactly at and one past the 1 KiB buffer / 2 KiB, custom+repeated headers, context-setting fang, HEAD, long query, malformed, short PUT, three requests refused after a query or header lines were stored, a query-less request with `=` in a header, Connection: close), one segment per request, on a single RawConn reused through the harness copy of the session loop; every response must be byte-identical to the one the request gets alone on a fresh connection, nothing may follow Connection: close, no stall at a request boundary. All histories of length <=2 (quick) / <=2 plus a fifth of length 3 (thorough) are replayed against the real Session::manage over TCP; model and implementation must produce the same bytes and the same close outcome (mismatch = exit 2).",
+        "level_text": "History-space exploration: all sequences of length <=4 (quick) / <=6 (thorough) over 20 requests (hit, 404, two params, bodies of 3 bytes / NUL-leading / NUL in the middle / ending exactly at and one past the 1 KiB buffer / 2 KiB, custom+repeated headers, context-setting fang, HEAD, long query, malformed, short PUT, three requests refused after a query or header lines were stored, a query-less request with `=` in a header, Connection: close), one segment per request, on a single RawConn reused through the harness copy of the session loop; every response must be byte-identical to the one the request gets alone on a fresh connection, nothing may follow Connection: close, no stall at a request boundary. All histories of length <=2 (quick) / <=2 plus a fifth of length 3 (thorough) are replayed against the real Session::manage over TCP; model and implementation must produce the same bytes and the same close outcome (mismatch = exit 2).",
         "level_note": "Trusted: the 15-line harness copy of the session loop as a model of session/mod.rs (bound by the TCP replays), the scripted reader's lock-step delivery (next segment only when the loop is Pending in a read), the clock hook. Handlers that panic are outside the alphabet.",
         "jobs": {"quick": 8, "thorough": 16},
         "assumptions": COMMON_ASSUMPTIONS + ["loopback TCP in the sandbox behaves like TCP (segments written with TCP_NODELAY after the peer has drained its queue arrive as separate reads)"],
@@ -66,7 +66,7 @@ PROPS = {
         "level": "model_checking",
         "technique": "exhaustive enumeration of read segmentations (all cut sets up to a size) of request streams, delivered in lock-step to the real read/handle/send code under a controlled executor; oracle: same responses as the per-request segmentation; bound to the real Session::manage by TCP replay",
         "engine": "vmc",
-        "level_text": "Schedule-space exploration, deviation-bounded by the number of cuts: 110 streams (10 single requests, 100 ordered pairs; bodies none / plain / NUL-leading / spanning the buffer end) x every cut set of size 0 and 1 (all positions) and 2 (all positions on streams <=160 bytes, structural neighbourhoods otherwise), thorough also 3 cuts on streams <=120 bytes. Oracle: response sequence and end state equal those of the one-segment-per-request delivery. 0/1-cut (thorough: also 2-cut) schedules of the shortest streams are replayed over real TCP against Session::manage.",
+        "level_text": "Schedule-space exploration, deviation-bounded by the number of cuts: 110 streams (10 single requests, 100 ordered pairs; bodies none / plain / NUL-leading / spanning the buffer end) x every cut set of size 0 and 1 (all positions) and 2 (all positions on streams <=160 bytes, structural neighbourhoods otherwise), thorough also 3 cuts on streams <=200 bytes. Oracle: response sequence and end state equal those of the one-segment-per-request delivery. 0/1-cut (thorough: also 2-cut) schedules of the shortest streams are replayed over real TCP against Session::manage.",
         "level_note": "Trusted: as C05. The two defects this check found on the unchanged tree (one read() per request head; bytes after the first request in a read dropped) were repaired (known_findings.json, status fixed): no finding is suppressed.",
         "jobs": {"quick": 16, "thorough": 16},
         "assumptions": COMMON_ASSUMPTIONS + ["loopback TCP in the sandbox behaves like TCP"],
@@ -369,7 +369,7 @@ PROPS = {
         "level": "model_checking",
         "technique": "explicit enumeration of directory trees (materialized on disk) x omit-extension settings x mount routes x variants, and of all file / directory / traversal / encoding / near-miss requests; responses of the real router are compared with the path->(bytes, mime) map computed from the tree",
         "engine": "vmc",
-        "level_text": "Bounded exhaustive exploration of configuration x input space: trees of 1..2 (quick, complete) / 1..3 (thorough, triples thinned) entries from 8 file kinds (every supported text/binary extension class, an empty file, a 256-byte-values binary, index.html) x 4 directories nested <=2 deep, omit_extensions in {-, [html], [html,txt]}, mount routes /, /s, /s/t, variants {plain, sibling param route, symlink to a file outside, files modified/deleted/added after mounting}; per configuration every file path (GET/HEAD/POST, trailing slash), every directory path, .. / %2e%2e / // / %2F variants, near-miss names, paths of outside files.",
+        "level_text": "Bounded exhaustive exploration of configuration x input space: trees of 1..2 (quick, complete) / 1..3 (thorough, triples with at most one deep entry) entries from 8 file kinds (every supported text/binary extension class, an empty file, a 256-byte-values binary, index.html) x 4 directories nested <=2 deep, omit_extensions in {-, [html], [html,txt]}, mount routes /, /s, /s/t, variants {plain, sibling param route, symlink to a file outside, files modified/deleted/added after mounting}; per configuration every file path (GET/HEAD/POST, trailing slash), every directory path, .. / %2e%2e / // / %2F variants, near-miss names, paths of outside files.",
         "level_note": "Trusted: the path map computed from the tree description, the C01 reference matcher (for the sibling param route), the independent HTTP response parser. Trees the framework documents as unsupported (two files mapping to one path) are skipped and counted; `/index` with html omitted and percent-encoded ordinary characters are counted as ambiguous. Scratch trees live on tmpfs (/dev/shm) when available.",
         "jobs": {"quick": 16, "thorough": 16},
         "assumptions": ROUTER_ASSUMPTIONS + ["the directory tree is created by the harness on a local file system; only regular files, directories and one symlink are generated"],
